@@ -9,6 +9,9 @@ _msb = [Harness(f"c11_shard_of_msb_{m:02d}", f"C11.shard_of.kani_contract.msb{m:
 PROPERTY = {
     "title": "shard of a token and shard-aware source ports match ScyllaDB's algorithm",
     "level": "proof",
+    "level_text": "Deductive proof, all inputs: Verus proves on the extracted real functions that shard_of equals ScyllaDB's formula in mathematical integers and is < nr_shards, that shard_of_source_port is port mod n, and that calculate_lowest_port returns min{p in [lo,hi] | p mod n = shard} or None iff that set is empty (unbounded n, lo, hi). Kani/CBMC+z3 re-proves shard_of's in-place contract on the compiled code for all tokens and shard counts, one complete harness per msb_ignore 0..63.",
+    "level_note": 'Trusted: Verus/Z3, Kani/CBMC/z3; vstd specs of integer ops; RangeInclusive::start/end and bool::then_some contracts; msb_ignore<64 taken as precondition. Not yet covered: the random port draw / port iterator (rand + StepBy adapters).',
+    "technique": 'contract-based deductive verification: Verus contracts on extracted functions + Kani function contracts (proof_for_contract)',
     "timeout": 300,
     "verus": [
         Unit("c11_sharding", "C11", "c11_sharding.vrs", desc={
